@@ -254,7 +254,7 @@ namespace awkward {
     }
 
     if (partitions.empty()) {
-      partitions.push_back(partitions_[0].get()->getitem_nothing());
+      partitions.push_back(partitions_[0].get()->getitem_range_nowrap(0, 0));
       stops.push_back(0);
     }
     return std::make_shared<IrregularlyPartitionedArray>(partitions, stops);
